@@ -312,8 +312,8 @@ theorem C05_gcOld_unsafe_alias_chain :
 overlap, so the evaluator reads bits of `b + 3` where bits of `a >> 2` are
 meant.  Go: `[20 24 80]` instead of `[50 24 80]` for a=203, b=77. -/
 theorem C05_gcOld_chain_ids_collide :
-    let tr := (streamTrace [(0, 8), (1, 8)]
-      [⟨10, [true, false, false, false]⟩, ⟨11, [true, true, false, false, false, false, false, false]⟩]
+    let tr := (streamTrace [⟨0, 8, 0⟩, ⟨1, 8, 0⟩]
+      [⟨10, 0, [true, false, false, false]⟩, ⟨11, 0, [true, true, false, false, false, false, false, false]⟩]
       chainOut).2
     tr.retIds.length = 24 ∧
     ((tr.retIds.take 8).filter fun i => (tr.retIds.drop 16).contains i) = [2, 3, 4, 5, 6, 7] := by
@@ -344,8 +344,8 @@ theorem C05_gcOld_unsafe_concat :
   exact PointsInto.self 0 (by decide)
 
 theorem C05_gcOld_concat_ids_collide :
-    let tr := (streamTrace [(0, 32), (1, 32)]
-      [⟨10, [true, true]⟩, ⟨11, List.replicate 32 false⟩, ⟨12, [true, false, true]⟩] concatOut).2
+    let tr := (streamTrace [⟨0, 32, 0⟩, ⟨1, 32, 0⟩]
+      [⟨10, 0, [true, true]⟩, ⟨11, 0, List.replicate 32 false⟩, ⟨12, 0, [true, false, true]⟩] concatOut).2
     tr.retIds.length = 96 ∧ tr.retIds.take 32 = (tr.retIds.drop 64) := by
   decide +kernel
 
@@ -356,6 +356,40 @@ theorem C05_gc_witnesses_now_safe :
     gcPass concatProg =
       some [concatProg[0], gcStep (mkV 1 32), concatProg[1], concatProg[2], gcStep (mkV 2 32), concatProg[3]] := by
   decide
+
+/-! ### The allocator's hash buckets
+
+`WireAllocator` finds a value's header by walking the chain of its hash
+bucket (`Value.HashCode() % 10240`); `lookup` moves a header found at depth 3
+or deeper to the head, `remove` (used by `GCWires`) unlinks the header it
+finds.  Several live values can share a bucket. -/
+
+/-- `remove v` returns `v`'s header, deletes exactly it, and every other
+value's header stays findable and unchanged, at any position of `v` in the
+chain. -/
+theorem C05_walloc_remove_exact (c : List Entry) (k : Nat) (hn : KeysNodup c) :
+    (chainRemove c k).1 = c.find? (·.key == k) ∧
+    (chainRemove c k).2.find? (·.key == k) = none ∧
+    (∀ k', k' ≠ k → (chainRemove c k).2.find? (·.key == k') = c.find? (·.key == k')) ∧
+    KeysNodup (chainRemove c k).2 :=
+  chainRemove_spec c k hn
+
+/-- `lookup v` finds `v`'s header iff the chain has one; its move-to-front
+changes the result of no lookup. -/
+theorem C05_walloc_lookup_exact (c : List Entry) (k : Nat) (hn : KeysNodup c) :
+    (chainLookup c k).1 = c.find? (·.key == k) ∧
+    (∀ k', (chainLookup c k).2.find? (·.key == k') = c.find? (·.key == k')) ∧
+    KeysNodup (chainLookup c k).2 :=
+  chainLookup_spec c k hn
+
+/-- Non-vacuity: a bucket shared by three live values; looking up the oldest
+moves it to the front, removing the middle one keeps the other two. -/
+def exChain : List Entry :=
+  [⟨7, some 30, none, none⟩, ⟨5, some 20, none, none⟩, ⟨3, some 10, none, none⟩]
+
+example : KeysNodup exChain := by unfold KeysNodup; decide
+example : ((chainLookup exChain 3).2.map (·.key)) = [3, 7, 5] := by decide
+example : ((chainRemove exChain 5).2.map (·.key)) = [7, 3] := by decide
 
 /-- The wire-side theorem applies to the executed instance (`BitVec 128`, any
 block function, offset after `SetS(true)`). -/
